@@ -15,6 +15,7 @@ import (
 	"context"
 	"fmt"
 	abci "github.com/cometbft/cometbft/abci/types"
+	codectypes "github.com/cosmos/cosmos-sdk/codec/types"
 	"math/rand"
 	"sort"
 	"strings"
@@ -704,6 +705,9 @@ type step struct {
 	strict bool
 	// expected supply delta per denom given the outcome (nil = none)
 	supplyDelta func(failed bool) map[string]sdkmath.Int
+	// skippable: a step that reported SUCCESS may also have applied nothing at all (the tally marks an event observed
+	// and logs-and-skips a handler that failed: "can't recover it, log and move on") - then supply is unchanged
+	skippable bool
 }
 
 func (m *mon) steps() []step {
@@ -806,6 +810,45 @@ func (m *mon) steps() []step {
 			if err == nil {
 				write()
 			}
+			return err != nil, errStr(err)
+		}, supplyDelta: func(failed bool) map[string]sdkmath.Int {
+			if failed {
+				return nil
+			}
+			return map[string]sdkmath.Int{t.Denom: amt}
+		}})
+	}
+	// the same, but through the REAL tally path: an attestation carrying the votes of every validator is handed to
+	// TryAttestation (threshold test, cursor, observed flag, handler, observation event with its chain-info lookup).
+	// A reported failure must leave supply and balances alone whatever collaborator call failed inside.
+	if len(w.Tokens) > 0 {
+		t := w.Tokens[r.Intn(len(w.Tokens))]
+		rcv := w.Users[r.Intn(len(w.Users))].Bech
+		if r.Intn(4) == 0 {
+			rcv = "not-an-address"
+		}
+		amt := sdkmath.NewInt(int64(1 + r.Intn(100000)))
+		st = append(st, step{kind: "tally:SendToPaloma", strict: false, skippable: true, run: func(ctx sdk.Context) (bool, string) {
+			last, err := k.GetLastObservedSkywayNonce(ctx, t.ChainRef)
+			if err != nil {
+				return true, errStr(err)
+			}
+			claim := &skywaytypes.MsgSendToPalomaClaim{EventNonce: last + 1, SkywayNonce: last + 1, EthBlockHeight: 900000, TokenContract: t.ERC20, Amount: amt,
+				EthereumSender: "0x00000000000000000000000000000000000000e1", PalomaReceiver: rcv, Orchestrator: w.Vals[0].Bech, ChainReferenceId: t.ChainRef, CompassId: w.Compass[t.ChainRef]}
+			anyClaim, err := codectypes.NewAnyWithValue(claim)
+			if err != nil {
+				return true, errStr(err)
+			}
+			att := &skywaytypes.Attestation{Observed: false, Height: uint64(ctx.BlockHeight()), Claim: anyClaim}
+			for _, v := range w.Vals {
+				att.Votes = append(att.Votes, v.ValBech())
+			}
+			hash, err := claim.ClaimHash()
+			if err != nil {
+				return true, errStr(err)
+			}
+			k.SetAttestation(ctx, t.ChainRef, claim.SkywayNonce, hash, att)
+			err = k.TryAttestation(ctx, att)
 			return err != nil, errStr(err)
 		}, supplyDelta: func(failed bool) map[string]sdkmath.Int {
 			if failed {
@@ -967,6 +1010,9 @@ func (m *mon) checkStep(s step, after sdk.Context, failed bool, info, faultName 
 			exp = exp.Add(x)
 		}
 		m.rec.Eval(1)
+		if s.skippable && !failed && v.supply[d].Equal(b.supply[d]) {
+			continue
+		}
 		if !v.supply[d].Equal(exp) {
 			m.vio(where+"/supply-mismatch", fmt.Sprintf("%s (failed=%v, fault %s#%d): supply of %s is %s, expected %s", s.kind, failed, faultName, kth, d, v.supply[d], exp), wit)
 		}
